@@ -36,6 +36,45 @@ func checkC12(c *Ctx, r *Report) {
 			fmt.Sprintf("the kind of an identifier is written only where its entry is created (%d composite literals)", n),
 			"the kind of an existing identifier is re-assigned by "+strings.Join(bad, "; ")+": a declared token can become a nonterminal without rules (or the reverse), and a usable grammar is refused")
 	}
+	// … and a name is declared by a declaration line or by being a rule's left-hand side, never by being USED: the
+	// rule reader adds entries to the declaration list for character literals only — an identifier that a rule (or a
+	// %prec) merely mentions must stay undeclared, so that the rule visitor refuses it
+	if f := c.need(r, "C12.c", "Parser", "parser", "parseRule"); f != nil {
+		info := f.Pkg.TypesInfo
+		var bad []string
+		n := 0
+		ast.Inspect(f.Decl.Body, func(nd ast.Node) bool {
+			as, ok := nd.(*ast.AssignStmt)
+			if !ok || len(as.Lhs) != 1 || len(as.Rhs) != 1 {
+				return true
+			}
+			fv := fieldVar(info, as.Lhs[0])
+			if fv == nil || fv.Name() != "IdentifyList" {
+				return true
+			}
+			if call, isC := unparen(as.Rhs[0]).(*ast.CallExpr); !isC || builtinName(info, call) != "append" {
+				return true
+			}
+			n++
+			literal := false
+			for _, a := range guardAtoms(c, f, as) {
+				if strings.Contains(a, ".current.Kind == \"Charater\")") && !strings.HasPrefix(a, "!") && !strings.Contains(a, "||") && !strings.Contains(a, "no-earlier") {
+					literal = true
+				}
+			}
+			if !literal {
+				bad = append(bad, fmt.Sprintf("the entry added at %s is not confined to a character-literal token", c.pos(as.Pos())))
+			}
+			return true
+		})
+		if n == 0 {
+			r.Undecided("C12.c", "R4 WHO-WRITES", f.Name+"/rules-declare-literals-only", c.pos(f.Decl.Pos()), "no append to the declaration list found in parseRule (one confirmed by hand)")
+		} else {
+			r.Check(len(bad) == 0, "C12.c", "R4 WHO-WRITES", f.Name+"/rules-declare-literals-only", c.pos(f.Decl.Pos()),
+				fmt.Sprintf("%d site(s): the rule reader declares a token only for a character literal it meets", n),
+				"a name that a rule only uses is entered into the declaration list ("+strings.Join(bad, "; ")+"): an undeclared symbol is then no longer refused and the grammar is generated with a token the user never declared")
+		}
+	}
 	// C12.a
 	c12Flows(c, r)
 	if f := c.need(r, "C12.a", "Grammar", "Grammar", "CalculateCanTerminate"); f != nil {
